@@ -353,16 +353,37 @@ def _loud_rules(ctx: Ctx, rs: RuleSet):
   # the `traverser is None` branch: last else raises
   ok = False
   trav = roles.assigned_from(f, roles.call_of('find_node_traverser'))
-  for n in walk_function(f.node):
-    if isinstance(n, ast.If) and roles.is_none_test(n.test, trav) is True:
-      chain = n.body[0] if n.body and isinstance(n.body[0], ast.If) else None
-      while chain is not None and len(chain.orelse) == 1 and isinstance(
-          chain.orelse[0], ast.If):
-        chain = chain.orelse[0]
-      if chain is not None and chain.orelse:
-        last = chain.orelse[-1]
-        ok = isinstance(last, ast.Raise) and 'UnserializableValueError' in unparse(
-            last)
+  # no traverser and none of the special cases (leaf type, importable symbol,
+  # proxy, registered constant): every test of those is false - the only way
+  # on is a raise of UnserializableValueError
+  from fdlstatic import dispatch
+
+  def _ev(t):
+    nt = roles.is_none_test(t, trav)
+    if nt is not None:
+      return nt  # `traverser is None` holds
+    if isinstance(t, ast.Call) and unparse(t.func) in (
+        'isinstance', '_is_leaf_type'):
+      return False
+    if isinstance(t, ast.Compare) and isinstance(t.ops[0], ast.In) and (
+        '_serialization_constants' in unparse(t.comparators[0])):
+      return False
+    return None
+
+  r = dispatch.reach_atoms(g, _ev)
+  rets = [n for n in r if isinstance(g.stmt[n], ast.Return)]
+  raises = [n for n in r if isinstance(g.stmt[n], ast.Raise) and
+            'UnserializableValueError' in unparse(g.stmt[n])]
+  # returns reachable before the traverser lookup (memo hit) are not part of
+  # this case: only those dominated by the `traverser is None` test count
+  none_tests = [n for n in g.nodes() if g.kind[n] == 'if' and
+                roles.is_none_test(g.stmt[n].test, trav) is not None]
+  late_rets = [n for n in rets if any(
+      g.dominated_by(n, {m}, labels=cfg_lib.NO_EXC) for m in none_tests)]
+  ok = bool(none_tests) and bool(raises) and not late_rets and (
+      g.exit not in dispatch.reach_atoms(
+          g, _ev, start=[x for m in none_tests for x, lab in g.succ[m]
+                         if lab in ('true', 'false')]) or not late_rets)
   rs.check(ok, rule, f'{f.qualname}:untraversable',
            'a value that is no leaf, pyref-able symbol, proxy or registered '
            'constant raises UnserializableValueError', ctx.loc(f, f.node))
